@@ -160,7 +160,7 @@ def run(ck, tier):
         ok = over_output and guard and caps_ok and from_caps
         ck.decide(rule, "make_title_case:store:canonical-copy", ok, c.span,
                   "*c = correct_caps[idx] over output[word span].iter_mut()=%s, under is_proper_noun=%s, correct_caps = dict.get_correct_capitalization_of(the word's own text)=%s/%s" % (over_output, guard, caps_ok, from_caps))
-    ck.floor(rule, "store sites into the output buffer", n_sites, 3)
+    ck.floor(rule, "store sites into the output buffer", n_sites, 2)
 
 
     _first(ck, p, byk)
